@@ -86,6 +86,9 @@ class CallMixin:
                         return self.global_object(sch)
                 return val
             return r
+        if isinstance(v, GhostProxy):
+            g = self.ghost[name]
+            return SArr(g) if isinstance(g, smt.T) else g
         if isinstance(v, types.SimpleNamespace):
             return getattr(v, name)
         if isinstance(v, Closure) and name == '__name__':
@@ -196,6 +199,16 @@ class CallMixin:
             if isinstance(base, str) and isinstance(idx, int):
                 return base[idx]
             return SStr(smt.StrAt(self.term_of(base), self.int_term(idx)))
+        if isinstance(base, SArr):
+            _, (ks, vs) = smt.sort_args(base.t.sort)
+            r = smt.Select(base.t, self.term_of(idx))
+            if vs == BOOL:
+                return self.as_bool_value(r)
+            if vs == STR:
+                return SStr(r)
+            if vs == INT:
+                return SInt(r)
+            return SArr(r)
         if isinstance(base, SRef):
             # mapping-style record access: run['conclusion']
             if isinstance(idx, str):
@@ -511,7 +524,7 @@ class CallMixin:
         return self.interpret_function(fn, args, {})
 
     def ghost_ns(self):
-        return types.SimpleNamespace(**self.ghost)
+        return GhostProxy(self)
 
     # ---------------------------------------------------------------- calls
     def call(self, f, args, kwargs):
@@ -589,6 +602,23 @@ class CallMixin:
             t = self.truth(self.call_spec(c.requires, loc, None))
             self.oblige('pre/%s@%d' % (qn, site), 'pre', t, 'call site line %d' % site)
             self.assume(t)
+        if c.pure:
+            names = [a.arg for a in node.args.args]
+            argterms = [self.term_of(loc[n]) for n in names if not isinstance(loc[n], Obj)]
+            rty = parse_type(c.returns)
+            val = self.value_of_sort(smt.App('fn:' + qn, argterms, type_sort(rty, self.env.classes)), rty)
+            ns = dict(loc)
+            ns['out'] = Outcome(value=val)
+            self.pure += 1
+            try:
+                for name, ens in c.ensures:
+                    t = self.truth(self.call_spec(ens, ns, None))
+                    for bound, rng in reversed(self.qctx):
+                        t = smt.ForAll(bound, smt.Implies(rng, t))
+                    self.assume(t)
+            finally:
+                self.pure -= 1
+            return val
         saved_old = (self.old_heap, self.old_ghost)
         self.old_heap, self.old_ghost = dict(self.heap), dict(self.ghost)
         try:
